@@ -540,3 +540,12 @@ Proof.
   destruct (trim_right_split (trim_left v)) as (w & E & Hw).
   rewrite E. apply (try_core_sound ovf); assumption.
 Qed.
+
+(* the old-ClassAd fallback on text without quote or backslash *)
+Lemma old_string_plain s : forallb plain_byte s = true -> decode_old_string s = Some s.
+Proof.
+  induction s as [|b r IH]; intro H; [reflexivity|].
+  cbn [forallb] in H. apply andb_true_iff in H as [Hb Hr].
+  unfold plain_byte in Hb. apply negb_true_iff, orb_false_iff in Hb as [B1 B2].
+  cbn [decode_old_string]. rewrite B1, B2, (IH Hr). reflexivity.
+Qed.
